@@ -15,9 +15,19 @@ if not ok:
 name = sys.argv[4] if len(sys.argv) > 4 else os.path.basename(src.rstrip("/"))
 dst = os.path.join(VERIF, "seeded", name)
 os.makedirs(dst, exist_ok=True)
-for f in ("patch.diff", "demo.c", "demo.sh", "notes.txt"):
-    if os.path.exists(os.path.join(src, f)):
-        shutil.copy(os.path.join(src, f), dst)
+def is_text(path):
+    try:
+        b = open(path, "rb").read(200000)
+    except OSError:
+        return False
+    return b"\0" not in b and not b.startswith(b"\x7fELF") and os.path.getsize(path) < 200000
+
+
+# the patch, the demonstration and whatever source files the demonstration needs (no binaries, no build output)
+for f in sorted(os.listdir(src)):
+    fp = os.path.join(src, f)
+    if os.path.isfile(fp) and is_text(fp) and not f.endswith((".o", ".log", ".out")):
+        shutil.copy(fp, dst)
 # shared demo helpers, if any
 for extra in ("common",):
     p = os.path.join(os.path.dirname(src.rstrip("/")), extra)
